@@ -14,10 +14,13 @@ def run_real(lines):
     import real
     r = real.Real()
     obs, mlines = [], []
-    for ln in lines:
-        o, ml = r.step(ln)
-        obs.append(o)
-        mlines.append(ml)
+    try:
+        for ln in lines:
+            o, ml = r.step(ln)
+            obs.append(o)
+            mlines.append(ml)
+    finally:
+        r.cleanup()
     return obs, mlines
 
 
@@ -73,13 +76,51 @@ def compare(line, robs, mobs):
         if m.get('inv') != 'ok':
             return 'layout invariant violated on the real arrays: clause %s' % m.get('inv')
         for k in ('covmask', 'abs'):
-            if r.get(k) != m.get(k):
+            if not vals_equal(r.get(k, ''), m.get(k, '')):
                 return 'state.%s differs (real read path vs Lean abs on real arrays): %s' % (
                     k, first_diff(r.get(k, ''), m.get(k, '')))
         return None
-    if robs != mobs:
+    if not vals_equal(robs, mobs):
         return 'observation differs: ' + first_diff(robs, mobs)
     return None
+
+
+def tok_equal(x, y):
+    """x: real token (exact dyadic), y: model token, possibly an exact rational `n/d` or `qn/d`
+    (= sqrt(n/d)); the latter two are compared with relative tolerance 2^-20 (the real value went
+    through one or a few IEEE roundings that the exact model does not perform)."""
+    if x == y:
+        return True
+    if '/' not in y:
+        return False
+    from fractions import Fraction
+    import math
+    try:
+        if '^' in x:
+            n, e = x.split('^')
+            rx = Fraction(int(n), 2 ** int(e))
+        else:
+            rx = Fraction(int(x))
+    except ValueError:
+        return False
+    if y.startswith('q'):
+        n, d = y[1:].split('/')
+        ry = math.sqrt(Fraction(int(n), int(d)))
+        return abs(float(rx) - ry) <= abs(ry) * 2.0 ** -20
+    if y.startswith('r'):
+        return False
+    n, d = y.split('/')
+    ry = Fraction(int(n), int(d))
+    return abs(rx - ry) <= abs(ry) * Fraction(1, 2 ** 20)
+
+
+def vals_equal(a, b):
+    if a == b:
+        return True
+    if '/' not in b:
+        return False
+    la, lb = a.split(','), b.split(',')
+    return len(la) == len(lb) and all(tok_equal(x, y) for x, y in zip(la, lb))
 
 
 def first_diff(a, b):
@@ -87,7 +128,7 @@ def first_diff(a, b):
     if len(la) != len(lb):
         return 'lengths %d vs %d (real=%s model=%s)' % (len(la), len(lb), a[:80], b[:80])
     for i, (x, y) in enumerate(zip(la, lb)):
-        if x != y:
+        if not tok_equal(x, y):
             return 'index %d: real=%s model=%s' % (i, x, y)
     return 'real=%s model=%s' % (a[:80], b[:80])
 
